@@ -46,4 +46,5 @@ func runC11(r *Report) {
 	c11FlagRules(r)
 	ruleWriteCount(r)
 	ruleInputsValidated(r)
+	ruleSentinelForm(r, "pq", "sstables", "memstore", "simpledb", "skiplist")
 }
